@@ -187,7 +187,7 @@ mod verif_bodyw {
     verif_harness!(c07_t_chunkw_2_0_0_2, 70, { write_sequence(&[2, 0, 0, 2], false) });
     verif_harness!(c07_t_chunkw_16, 70, { write_sequence(&[16], false) });
     verif_harness!(c07_t_chunkw_buf_5_2, 70, { write_sequence(&[5, 2], true) });
-    verif_harness!(c07_t_chunkw_1_1_1_1, 70, { write_sequence(&[1, 1, 1, 1], false) });
+    verif_harness!(c07_t_chunkw_1_1_1, 70, { write_sequence(&[1, 1, 1], false) });
     // NOTE: a transport that accepts fewer bytes than offered (short writes) cannot be driven through
     // ChunkedWriter here: the retry loops of write_all / write_fmt run on lengths that come out of
     // core::fmt, which are not constant for the symbolic executor, and are unwound to the bound at
@@ -251,6 +251,10 @@ mod verif_bodyw {
     verif_harness!(c10_q_replay_text_n3, 20, { replay_text::<3>() });
     verif_harness!(c10_q_replay_bytes_n4, 20, { replay_bytes::<4>() });
     verif_harness!(c10_t_replay_bytes_n9, 20, { replay_bytes::<9>() });
+    verif_harness!(c10_qtwin_replay, 20, {
+        replay_bytes::<4>();
+        assert!(false, "twin: must be reported as FAILURE");
+    });
     verif_harness!(c10_q_replay_empty, 20, {
         let mut b = Empty;
         let mut s1: Sink<4> = Sink::new();
